@@ -46,6 +46,7 @@ type CPPlan struct {
 	LeadBlank   int      `json:"lead_blank,omitempty"` // blank / whitespace-only lines before the package clause of every file
 	EOL         int      `json:"eol,omitempty"`   // line endings of the source files: 0 = LF, 1 = CRLF, 2 = CRLF on some lines
 	LibPkg      bool     `json:"lib_pkg,omitempty"` // with Split > 0: the second file is a package of its own (package shape, imported as example.com/geo/shape)
+	ManyGlobals int      `json:"many_globals,omitempty"` // names the host registers with Set before the load (the function-name table then starts beyond them)
 	Split       int      `json:"split,omitempty"` // functions with index >= Split (when > 0) live in a second file of the package
 }
 
@@ -555,6 +556,12 @@ func (e crashpoint) genPlan(r *core.PRNG) *CPPlan {
 	}
 	p.Cons = r.Chance(1, 6)
 	p.PreFail = r.Chance(1, 5)
+	if r.Chance(1, 12) {
+		p.ManyGlobals = 3900 + r.Intn(700)
+		if r.Chance(1, 4) {
+			p.ManyGlobals = 200 + r.Intn(20000)
+		}
+	}
 	p.LibPkg = p.Split > 0 && r.Chance(1, 2)
 	for i := 0; i < g.nf; i++ {
 		f := CPFunc{Method: i > 0 && r.Chance(1, 3), Variadic: i > 0 && r.Chance(1, 4)}
@@ -691,6 +698,12 @@ func (crashpoint) Execute(plan any, keep bool) *core.Result {
 		res.History = hist
 		res.Steps = 2
 		return res
+	}
+	for i := 0; i < p.ManyGlobals; i++ {
+		run.h.VM.Set(fmt.Sprintf("cfg.k%d", i), goatlang.Int(i))
+	}
+	if p.ManyGlobals != 0 {
+		res.Counters.Inc("many_globals")
 	}
 	if err := run.h.Load("main"); err != nil {
 		res.Fail("HARNESS", "generator", "program", "the generated program does not load: %v\n%s", err, rd.Text)
@@ -972,6 +985,10 @@ func (crashpoint) Shrink(plan any) []func() any {
 	}
 	if p.PreFail {
 		mod(func(q *CPPlan) { q.PreFail = false })
+	}
+	if p.ManyGlobals != 0 {
+		mod(func(q *CPPlan) { q.ManyGlobals = 0 })
+		mod(func(q *CPPlan) { q.ManyGlobals = p.ManyGlobals / 2 })
 	}
 	if p.LibPkg {
 		mod(func(q *CPPlan) { q.LibPkg = false })
